@@ -1,3 +1,138 @@
--- stub: replaced by the property author
+import SupervisorModel.Lemmas.Listener
+/-
+  C10 — event-listener protocol safety.  Property theorems only; helper lemmas are in
+  Lemmas/Listener.lean.  The definitions unfolded there (`Sv.Gen.Listener.*`) are regenerated
+  from /repo on every run.
+-/
+set_option linter.unusedSimpArgs false
+set_option linter.unusedVariables false
 namespace Sv.Props.C10
+open Sv Sv.Listener Sv.Gen.Listener
+
+/-- The parser's data invariant (`Listener.Wf`): while a result is being collected its announced length
+    is not negative and the collected part is not longer than it.  It holds for a new dispatcher and is
+    kept by everything the parser does (this is what the sign check of fix F6 buys). -/
+theorem resultlen_never_negative (h : Bytes → HRes) (a : Bytes) (s : S) (he : s.err = none) (hw : Wf s.p) :
+    (feed h a s).err = none ∧ Wf (feed h a s).p ∧
+    (∀ n, (feed h a s).p.resultlen = some n → 0 ≤ n) := by
+  have h1 : setP (fun p => { p with buf := p.buf ++ a }) s = sapp s a := by simp [setP, guard, he, sapp, app]
+  unfold feed hlsc
+  rw [h1]
+  have hw' : Wf (sapp s a).p := (app_wf _ _).mpr hw
+  have := runHL_ok h (mu (sapp s a).p + 1) (sapp s a) he hw' (by omega)
+  refine ⟨this.1, this.2, ?_⟩
+  intro n hn
+  have h2 := this.2
+  simp only [Wf, hn] at h2
+  omega
+
+example : Wf (fresh 7) := by simp [Wf, fresh, initialResult]
+
+/-- The recursion of `handle_listener_state_change` always ends within the depth `2·|buffer| + 2`
+    (the model's fuel): no RecursionError, for every state and every input.
+    (Before fix F6 `RESULT -1\n…` recursed for ever.) -/
+theorem terminates (h : Bytes → HRes) (a : Bytes) (s : S) (he : s.err = none) (hw : Wf s.p) :
+    (feed h a s).err ≠ some .fuel := by
+  rw [(resultlen_never_negative h a s he hw).1]; simp
+
+/-- **Fragmentation invariance.**  Delivering `a` and then `b` leaves the listener — state, buffer,
+    pending length, partial result, held event — and the concatenated outputs (state changes, handler
+    calls, rejections) exactly as delivering `a ++ b` at once. -/
+theorem fragmentation_invariant (h : Bytes → HRes) (a b : Bytes) (s : S) (he : s.err = none) (hw : Wf s.p) :
+    feed h b (feed h a s) = feed h (a ++ b) s := by
+  have h1 : ∀ (t : S) (x : Bytes), t.err = none → setP (fun p => { p with buf := p.buf ++ x }) t = sapp t x := by
+    intro t x ht; simp [setP, guard, ht, sapp, app]
+  have r1 := resultlen_never_negative h a s he hw
+  have hw' : Wf (sapp s a).p := (app_wf _ _).mpr hw
+  have hfa : feed h a s = runHL h (mu (sapp s a).p + 1) (sapp s a) := by unfold feed hlsc; rw [h1 s a he]
+  have hassoc : sapp s (a ++ b) = sapp (sapp s a) b := by simp [sapp, app, List.append_assoc]
+  unfold feed hlsc at *
+  rw [h1 s (a ++ b) he, hassoc, h1 _ b r1.1, h1 s a he]
+  exact (run_append h b (mu (sapp s a).p + 1) (sapp s a) _ _ he hw' (by omega) (by simp [sapp]) (by simp [sapp])).symm
+
+/-- a BUSY listener holding event 3 (non-vacuity of the hypotheses, and a concrete instance) -/
+def busy3 : S := { p := { fresh 7 with ls := .BUSY, event := some 3 } }
+example : busy3.err = none ∧ Wf busy3.p := by simp [busy3, Wf, fresh, initialResult]
+example : (feed defaultHandler [79, 75] (feed defaultHandler [82, 69, 83, 85, 76, 84, 32, 50, 10] busy3)).outs
+    = [.handler (some 3) [79, 75], .lstate .BUSY .ACKNOWLEDGED] := by decide
+
+/-! ### an event is written only to a RUNNING listener that announced READY -/
+
+/-- `_dispatchEvent` leaves a listener that is not RUNNING or not READY completely alone:
+    nothing is written, nothing changes (this covers UNKNOWN, ACKNOWLEDGED and BUSY: `unknown_is_silent`). -/
+theorem not_ready_not_sent (ev : Nat) (env : Bytes) (s : S) (hn : s.p.running = false ∨ s.p.ls ≠ .READY) :
+    trySend ev env s = (s, .skipped) := by
+  unfold trySend
+  rcases hn with hn | hn
+  · simp [hn]
+  · have : (s.p.ls == LS.READY) = false := by simpa using hn
+    simp [this]
+
+/-- when an event is handed over, the listener was RUNNING and READY -/
+theorem sent_only_when_ready (ev : Nat) (env : Bytes) (s : S) (hs : (trySend ev env s).2 = .sent) :
+    s.p.running = true ∧ s.p.ls = .READY := by
+  by_cases hr : s.p.running = true
+  · by_cases hl : s.p.ls = .READY
+    · exact ⟨hr, hl⟩
+    · rw [not_ready_not_sent ev env s (Or.inr hl)] at hs; cases hs
+  · have hr' : s.p.running = false := by simpa using hr
+    rw [not_ready_not_sent ev env s (Or.inl hr')] at hs; cases hs
+
+example : (trySend 5 [1, 2, 3] { p := { fresh 7 with ls := .READY, running := true } }).2 = .sent := by decide
+
+/-- in UNKNOWN every byte is swallowed: the state stays UNKNOWN and nothing is emitted -/
+theorem unknown_absorbs (h : Bytes → HRes) (a : Bytes) (s : S) (he : s.err = none) (hu : s.p.ls = .UNKNOWN) :
+    (feed h a s).p.ls = .UNKNOWN ∧ (feed h a s).outs = s.outs ∧ (feed h a s).p.buf = [] ∨
+    (a = [] ∧ s.p.buf = [] ∧ feed h a s = s) := by
+  have h1 : setP (fun p => { p with buf := p.buf ++ a }) s = sapp s a := by simp [setP, guard, he, sapp, app]
+  unfold feed hlsc
+  rw [h1, runHL_succ h _ (sapp s a) he]
+  by_cases hb : (sapp s a).p.buf = []
+  · right
+    have hb' : s.p.buf = [] ∧ a = [] := by simpa [sapp, app] using hb
+    refine ⟨hb'.2, hb'.1, ?_⟩
+    rw [stepC_nil h _ hb]
+    rcases hb' with ⟨h1, h2⟩
+    subst h2
+    cases s; simp_all [sapp, app]
+  · left
+    rw [stepC_unknown h _ hb hu]
+    simp [sapp, app, hu]
+
+/-- `violation_returns_event`, per call body of the parser: whenever a BUSY listener is put into
+    UNKNOWN (bad result line, result handler failure) an `EventRejectedEvent` for the event it held is
+    emitted and the listener no longer holds it. -/
+theorem violation_returns_event (h : Bytes → HRes) (p : Lst) (hb : p.ls = .BUSY) (hw : Wf p)
+    (hu : (stepP h p).p.ls = .UNKNOWN) :
+    Out.rejected p.event ∈ (stepP h p).outs ∧ (stepP h p).p.event = none := by
+  rw [stepP_eq] at hu ⊢
+  by_cases hbuf : p.buf = []
+  · rw [stepC_nil h p hbuf] at hu; simp [hb] at hu
+  · rcases Option.eq_none_or_eq_some p.resultlen with hr | ⟨n, hr⟩
+    · rw [stepC_header h p hbuf hb hr] at hu ⊢
+      unfold headerC at hu ⊢
+      rcases Option.eq_none_or_eq_some (findNL p.buf) with hf | ⟨pos, hf⟩
+      · simp [hf, hb] at hu
+      · rcases Option.eq_none_or_eq_some (headerLenC (p.buf.take pos)) with hh | ⟨m, hh⟩
+        · simp [hf, hh, toUnknown]
+        · simp [hf, hh, hb] at hu
+    · have hn : ¬ n - (p.result.length : Int) < 0 := by
+        have : (p.result.length : Int) ≤ n := by simpa [Wf, hr] using hw
+        omega
+      rw [stepC_body h p n hbuf hb hr, bodyC_eq_K h p n hn] at hu ⊢
+      unfold bodyK at hu ⊢
+      by_cases hc : n - ((takeBody p n).result.length : Int) = 0
+      · simp only [hc, if_true] at hu ⊢
+        unfold handled at hu ⊢
+        cases hh : h (takeBody p n).result <;> simp [hh, afterResult] at hu ⊢
+      · simp [hc, takeBody, hb] at hu
+
+/-- the one deviation from the documented automaton (finding F25): a complete zero-length result is
+    not acted on until another byte arrives -/
+theorem zero_length_result_deferred :
+    (feed defaultHandler [82, 69, 83, 85, 76, 84, 32, 48, 10] busy3).p.ls = .BUSY ∧
+    (feed defaultHandler [82, 69, 83, 85, 76, 84, 32, 48, 10] busy3).outs = [] ∧
+    (feed defaultHandler [82, 69, 83, 85, 76, 84, 32, 48, 10, 82] busy3).outs =
+      [.handler (some 3) [], .lstate .BUSY .ACKNOWLEDGED, .rejected (some 3)] := by decide
+
 end Sv.Props.C10
